@@ -145,7 +145,8 @@ ExtMine ==
 AttestNext ==
     /\ hub.inb
     /\ \E c \in SendChains \cup DepChains :
-         LET k == hub.ch[c].lon + 1 IN
+         \* the next event nobody has reported yet: several consecutive events can be reported within one block
+         LET k == Max({hub.ch[c].lon} \cup {LastNonceOf(hub, c, v) : v \in Vals}) + 1 IN
          /\ k <= Len(xw[c].log)
          /\ \A v \in Vals : LastNonceOf(hub, c, v) \in {0, k - 1}
          /\ LET ev == xw[c].log[k]
